@@ -17,6 +17,7 @@ func init() {
 		c17Cookie(c)
 		c17FirstResponse(c)
 		c17HeadersOnce(c)
+		c17HeaderMerge(c)
 		c17CookieDefaults(c)
 		c17CorsTable(c)
 		c17CorsChain(c)
@@ -218,9 +219,15 @@ func c17HeadersOnce(c *core.Ctx) {
 		if ok {
 			merged := false
 			for _, cl := range u.Calls() {
-				if cl.Name == "With" && cl.Recv != nil && strings.HasSuffix(core.ExprString(cl.Recv), "ResponseHeaders") {
+				isWith := cl.Name == "With" && cl.Recv != nil && strings.HasSuffix(core.ExprString(cl.Recv), "ResponseHeaders")
+				isMerge := cl.Key == "transports.mergeResponseHeaders"
+				if isWith || isMerge {
 					// argument derives from the headers() call
-					ast.Inspect(cl.Arg(0), func(n ast.Node) bool {
+					arg := cl.Arg(0)
+					if isMerge {
+						arg = cl.Arg(1)
+					}
+					ast.Inspect(arg, func(n ast.Node) bool {
 						if n == ast.Node(hs[0].Expr) {
 							merged = true
 						}
@@ -964,4 +971,72 @@ func hs0Pos(hs0, l *core.Unit) token.Pos {
 		return hs0.Pos()
 	}
 	return l.Pos()
+}
+
+// c17HeaderMerge — C17.13 (fix of hunting round 3): how the bag of a polling
+// response joins what the middlewares scheduled on the context.
+func c17HeaderMerge(c *core.Ctx) {
+	const R = "C17.13"
+	c.Rule(R, "the headers of a polling response join, and do not replace, what the middlewares scheduled: mergeResponseHeaders folds the bag's field names to their canonical form in a fixed order (sorted keys, http.Header.Add) — never in map order, which let `set-cookie` and `Set-Cookie` overwrite each other at random — and for the list fields Vary and Set-Cookie stores the existing values of the context followed by the bag's (the CORS middleware's Vary: Origin and a middleware's cookie survive a headers listener that adds its own)")
+	u := c.Fn(R, "transports.mergeResponseHeaders")
+	if u == nil {
+		return
+	}
+	g := u.Graph()
+	info := u.Info()
+	sorted, canon := false, false
+	for _, cl := range u.Calls() {
+		if cl.Key == "sort.Strings" || cl.Key == "slices.Sort" {
+			sorted = true
+		}
+		if cl.Name == "Add" && cl.Recv != nil && core.TypeName(info.TypeOf(cl.Recv)) == "Header" {
+			canon = true
+		}
+	}
+	isList := func(name string) core.Guard {
+		return func(x *core.Unit, br core.Branch) int {
+			cmp, ok := x.BranchCmp(br)
+			if !ok || cmp.Val == nil || cmp.Val.Kind() != constant.String || constant.StringVal(cmp.Val) != name {
+				return 0
+			}
+			switch cmp.Op {
+			case token.EQL:
+				return 1
+			case token.NEQ:
+				return -1
+			}
+			return 0
+		}
+	}
+	// the existing values are read and put in front on the list-field edge
+	accum := false
+	for _, cl := range u.Calls() {
+		if cl.Name != "Gets" || cl.Recv == nil || !strings.HasSuffix(core.ExprString(cl.Recv), "ResponseHeaders") {
+			continue
+		}
+		if g.GuardedBy(cl.Loc, gNot(isList("Vary"))) && g.GuardedBy(cl.Loc, gNot(isList("Set-Cookie"))) {
+			continue // read off the list-field edge: not the accumulation
+		}
+		for _, ap := range u.Calls() {
+			if ap.Callee == nil && ap.Name == "append" && len(ap.Expr.Args) >= 2 && g.Dominates(cl.Loc, ap.Loc) {
+				if d, k := u.SingleDef(ap.Arg(0)); k {
+					if te, isT := d.(*core.TupleElem); isT && te.Index == 0 && ast.Unparen(te.X) == ast.Expr(cl.Expr) {
+						accum = true
+					}
+				}
+			}
+		}
+	}
+	// both names are tested
+	both := 0
+	for _, name := range []string{"Vary", "Set-Cookie"} {
+		for _, f := range g.Facts() {
+			if isList(name)(u, f.Br) != 0 {
+				both++
+				break
+			}
+		}
+	}
+	c.Check(R, "transports.mergeResponseHeaders/canonical-in-fixed-order,list-fields-accumulate", u.Pos(), sorted && canon && accum && both >= 2,
+		keyf("keys sorted: %v; names folded through http.Header.Add: %v; existing Vary / Set-Cookie values read and put in front of the bag's: %v", sorted, canon, accum))
 }
